@@ -367,6 +367,10 @@ func (st *state) process(f *ssa.Function) {
 							mut = true
 						}
 					}
+					if mut && st.isT(cc.Args[0]) {
+						// an atomic or sync.Map inside owned memory: still a write of it (a flag or memo kept in the token)
+						st.report(f, in, "mutator-call", g.Name()+" on an atomic / sync.Map inside owned memory in "+name, cc.Args[0])
+					}
 					if mut {
 						if gl := globalBase(cc.Args[0]); gl != nil && inModuleGlobal(st, gl) {
 							st.findings[st.cfg.Pos(in.Pos())+"global"] = Finding{Fn: f, Pos: st.cfg.Pos(in.Pos()), Kind: "global-store", What: g.Name() + " on the package-level variable " + gl.Name() + " in " + name}
@@ -402,6 +406,18 @@ func (st *state) call(f *ssa.Function, c ssa.CallInstruction) bool {
 		args = append(args, cc.Value)
 	}
 	args = append(args, cc.Args...)
+	// the address of a package-level variable of the module (or of a part of it) handed to a callee: what the callee
+	// writes through it is process-wide state (a cache behind a method with a pointer receiver, ...)
+	for _, a := range args {
+		if _, isPtr := a.Type().Underlying().(*types.Pointer); !isPtr {
+			continue
+		}
+		if gl := globalBase(a); gl != nil && inModuleGlobal(st, gl) && f.Name() != "init" && !strings.HasPrefix(f.Name(), "init#") {
+			if st.taint(a, "package variable "+gl.Name()) {
+				changed = true
+			}
+		}
+	}
 	anyT, why := false, ""
 	for _, a := range args {
 		if st.isT(a) {
